@@ -18,7 +18,7 @@ LEVEL_NOTE = (
 )
 RULE = (
     "seeded generator by input class (special-case shapes in every operand order with random operands / random "
-    "trees to depth 6 quick, 8 thorough / the same built with evaluate=False / symbol-free numeric trees / "
+    "trees to depth 6 quick, 8 thorough / trees built with evaluate=False to depth 5 / symbol-free numeric trees / "
     "unsupported constructs alone and embedded / tuples / symbol-name families for the sort keys); leaves: symbols "
     "(names with digit groups, names shadowing sympy constants, with assumptions), integers incl. 10**20, floats, "
     "rationals, I. Non-trivial: >=6 nodes, >=1 symbol and a subtraction/division/reciprocal/half-power shape "
@@ -39,6 +39,12 @@ ASSUMPTIONS = [
     "symbols declared positive get positive values (sympy simplifies under that assumption, e.g. sqrt(-p) -> I*sqrt(p)); "
     "a value computed with complex arithmetic that lands on the negative real axis has no usable fractional power / "
     "logarithm (Python complex numbers carry signed zeros): such assignments give no verdict",
+    "an unevaluated tree whose nodes are all supported but whose evaluated form (doit) contains an unsupported node "
+    "(1/exp(-1) -> E) may be refused: the library negates sub-trees with `expr * (-1)`, which makes sympy evaluate them",
+    "a nested power (b**e)**w with non-integer w gives no verdict at an assignment where it differs from b**(e*w): "
+    "sympy 1.9 merges such exponents on its own when it rebuilds the expression (sqrt(z**2.0) -> z**1.0 for complex z)",
+    "an exception whose class is defined by sympy (e.g. polys' GeneratorsNeeded raised while sympy multiplies an "
+    "unevaluated radical tree by -1; str() of the same tree fails too) is the environment, not a refusal: no verdict",
     "a supported tree that is undefined at every assignment (e.g. a literal division by zero built with "
     "evaluate=False) may be refused",
     "sort keys: only pairs of names with the same non-digit skeleton are judged (the property speaks about the "
@@ -144,6 +150,24 @@ def _pow(st, b, w):
         raise Skip("power undefined")
 
 
+def _is_int(w):
+    return MP.im(w) == 0 and MP.re(w) == MP.floor(MP.re(w))
+
+
+def _power_of_power(st, main, bb, ee, w):
+    """(bb**ee)**w: where this differs from bb**(ee*w) the value depends on not merging the exponents;
+    sympy merges them on its own in some of these cases (sqrt((-1.03-0.5*I)**2.0) -> (-1.03-0.5*I)**1.0
+    in sympy 1.9), so such an assignment gives no verdict"""
+    if _is_int(w):
+        return
+    try:
+        alt = _pow(st, bb, ee * w)
+    except Skip:
+        raise Skip("power of power")
+    if abs(alt - main) > 1e-9 * max(abs(alt), abs(main)):
+        raise Skip("power of power")
+
+
 def _exp(st, z):
     if abs(MP.re(z)) > 1e5 or abs(MP.im(z)) > 1e8:
         raise Skip("exp out of range")
@@ -177,6 +201,9 @@ FUNCS = {
     # not in the supported grammar; only used to value trees that were passed through
     "sinh": _trig(lambda z: MP.sinh(z)), "cosh": _trig(lambda z: MP.cosh(z)), "tanh": _trig(lambda z: MP.tanh(z)),
     "log": _log, "Abs": lambda st, z: abs(z), "atan": lambda st, z: MP.atan(z), "conjugate": lambda st, z: MP.conj(z),
+    "cot": _trig(lambda z: MP.cot(z)), "sec": _trig(lambda z: MP.sec(z)), "csc": _trig(lambda z: MP.csc(z)),
+    "asin": lambda st, z: MP.asin(z), "acos": lambda st, z: MP.acos(z), "re": lambda st, z: MP.re(z),
+    "im": lambda st, z: MP.im(z), "sign": lambda st, z: MP.sign(z),
     "sqrt": _sqrt,
 }
 
@@ -223,7 +250,11 @@ def ev_sympy(e, env, st):
             acc = _fin(st, acc * ev_sympy(a, env, st))
         return acc
     if isinstance(e, S.Pow):
-        return _pow(st, ev_sympy(e.args[0], env, st), ev_sympy(e.args[1], env, st))
+        vb, w = ev_sympy(e.args[0], env, st), ev_sympy(e.args[1], env, st)
+        main = _pow(st, vb, w)
+        if isinstance(e.args[0], S.Pow):
+            _power_of_power(st, main, ev_sympy(e.args[0].args[0], env, st), ev_sympy(e.args[0].args[1], env, st), w)
+        return main
     if e is S.pi:
         return MP.pi
     if e is S.E:
@@ -262,11 +293,18 @@ def ev_native(t, env, st):
                 if args[1] == 0:
                     raise Skip("division by zero")
                 return _fin(st, args[0] / args[1])
-            if name == "pow" and len(args) == 2:
-                return _pow(st, args[0], args[1])
+            if name in ("pow", "sqrt") and len(args) == (2 if name == "pow" else 1):
+                w = args[1] if name == "pow" else MP.mpf(0.5)
+                main = _pow(st, args[0], w) if name == "pow" else _call(st, name, args)
+                inner = t.args[0]
+                if type(inner).__name__ == "FunctionCall" and inner.name in ("pow", "sqrt"):
+                    bb = ev_native(inner.args[0], env, st)
+                    ee = ev_native(inner.args[1], env, st) if inner.name == "pow" else MP.mpf(0.5)
+                    _power_of_power(st, main, bb, ee, w)
+                return main
         except ZeroDivisionError:
             raise Skip("division by zero")
-        if name in ("sqrt", "sin", "cos", "tan", "exp"):
+        if name in ("sin", "cos", "tan", "exp"):
             return _call(st, name, args)
         raise Unknown(name)
     return ev_sympy(t, env, st)  # sympy numbers passed through unchanged
@@ -339,7 +377,8 @@ def compare_values(ref, eval_fn, obj):
             got = eval_fn(obj, env, st)
         except Skip as s:
             # the reference is defined and well conditioned here, the result is not
-            if str(s) in ("overflow", "power out of range", "exp out of range", "trig out of range", "branch cut"):
+            if str(s) in ("overflow", "power out of range", "exp out of range", "trig out of range", "branch cut",
+                          "power of power"):
                 continue
             return "differ", f"assignment {k}: expected {MP.nstr(r[1], 15)}, result undefined ({s})"
         judged += 1
@@ -416,17 +455,46 @@ def _preorder(e):
         yield from _preorder(a)
 
 
-def srepr_short(e, limit=500):
+def _show(e, out, budget):
+    """structural printer (sympy's own printers can raise on unevaluated trees)"""
     import sympy as S
 
+    if budget[0] <= 0:
+        return
+    if isinstance(e, S.Basic) and e.args and not isinstance(e, (S.Integer, S.Rational, S.Float)):
+        out.append(type(e).__name__ + "(")
+        budget[0] -= len(out[-1])
+        for i, a in enumerate(e.args):
+            if i:
+                out.append(", ")
+            _show(a, out, budget)
+        out.append(")")
+        return
     try:
-        s = S.srepr(e)
+        t = S.srepr(e) if isinstance(e, S.Basic) else repr(e)
     except Exception:
-        s = repr(e)
+        t = f"<{type(e).__name__}>"
+    out.append(t)
+    budget[0] -= len(t)
+
+
+def srepr_short(e, limit=500):
+    out = []
+    try:
+        _show(e, out, [limit])
+    except Exception:
+        out.append(f"<{type(e).__name__}>")
+    s = "".join(out)
     return s if len(s) <= limit else s[: limit - 3] + "..."
 
 
 # ============================================================================ monitors
+def _sympy_internal(exc):
+    """an exception class defined by sympy itself (e.g. polys' GeneratorsNeeded while sympy evaluates an
+    unevaluated tree that even str() cannot print): environment, not a refusal by the library"""
+    return (type(exc).__module__ or "").startswith("sympy")
+
+
 def _is_sympy_expr(x):
     import sympy as S
 
@@ -441,6 +509,10 @@ def _post_from_sympy(mon, call):
         return
     _declare(e)
     bad = unsupported_nodes(e)
+    if call.exc is not None and _sympy_internal(call.exc):
+        mon.note(f"sympy-internal-error:{type(call.exc).__name__}")
+        mon.out_of_domain(name)
+        return
     if call.exc is not None:
         if bad:
             mon.ok(name)  # refusal of a tree with an unsupported node
@@ -450,7 +522,7 @@ def _post_from_sympy(mon, call):
             ref = reference_values(ev_sympy, e)
         except Unknown:
             ref = []
-        if any(r[0] == "ok" for r in ref):
+        if any(r[0] == "ok" for r in ref) and not _evaluated_form_unsupported(e):
             mon.violation("supported-refused", f"expression_from_sympy({srepr_short(e)}) raised {call.exc!r}")
         else:
             mon.out_of_domain(name)
@@ -515,6 +587,10 @@ def _post_translate(mon, call):
     except Unknown:
         mon.out_of_domain(name)
         return
+    if call.exc is not None and _sympy_internal(call.exc):
+        mon.note(f"sympy-internal-error:{type(call.exc).__name__}")
+        mon.out_of_domain(name)
+        return
     if call.exc is not None:
         if any(r[0] == "ok" for r in ref):
             mon.violation("translate-raises", f"translate_expression({str(t)[:400]}) raised {call.exc!r}")
@@ -524,7 +600,12 @@ def _post_translate(mon, call):
     try:
         verdict, detail = compare_values(ref, ev_sympy, call.result)
     except Unknown as u:
-        mon.violation("translated-not-valued", f"{str(t)[:400]} -> {srepr_short(call.result)}: node {u}")
+        if str(u) in ("ComplexInfinity", "Infinity", "NegativeInfinity", "NaN"):
+            # sympy folded a literal division by zero (0**-y -> zoo**y): infinities are not numbers
+            mon.note(f"translate:result-has-{u}")
+            mon.out_of_domain(name)
+        else:
+            mon.violation("translated-not-valued", f"{str(t)[:400]} -> {srepr_short(call.result)}: node {u}")
         return
     if verdict == "differ":
         mon.violation("translation-value-differs", f"{str(t)[:400]} -> {srepr_short(call.result)}: {detail}")
@@ -861,22 +942,34 @@ def unsupported_atoms(rng, S, a, b):
 
 # ============================================================================ cases
 def _features(e):
+    """structural only (no sympy assumption queries: they can raise on unevaluated trees such as 1/0)"""
     import sympy as S
+
+    def real_number(x):
+        return isinstance(x, (S.Integer, S.Rational, S.Float))
 
     feats = set()
     for n in _preorder(e):
-        if isinstance(n, S.Pow):
-            x = n.args[1]
-            if x.is_number and x.is_real:
-                if x.is_negative:
-                    feats.add("negpow")
-                if abs(x) == S.Rational(1, 2) or x == 0.5 or x == -0.5:
-                    feats.add("halfpow")
+        if isinstance(n, S.Pow) and real_number(n.args[1]):
+            x = float(n.args[1])
+            if x < 0:
+                feats.add("negpow")
+            if abs(x) == 0.5:
+                feats.add("halfpow")
         if isinstance(n, S.Add):
             for a in n.args:
-                if isinstance(a, S.Mul) and a.args and a.args[0].is_number and a.args[0].is_real and a.args[0].is_negative:
+                if isinstance(a, S.Mul) and a.args and real_number(a.args[0]) and float(a.args[0]) < 0:
                     feats.add("negterm")
     return feats
+
+
+def _evaluated_form_unsupported(e):
+    """node types outside the grammar that appear once sympy evaluates an unevaluated tree (the
+    library's own `expr * (-1)` re-evaluates sub-trees, e.g. 1/exp(-1) -> E)"""
+    try:
+        return unsupported_nodes(e.doit())
+    except Exception as ex:
+        return [f"doit raised {type(ex).__name__}"]
 
 
 def _roundtrip(ctx, e, label):
@@ -892,6 +985,9 @@ def _roundtrip(ctx, e, label):
         stage = "translate_expression"
         back = translate_expression(t, SYMPY_DIALECT)
     except Exception as ex:  # judged: refusal
+        if _sympy_internal(ex):
+            ctx.mon.note(f"refused:sympy-internal-error:{type(ex).__name__}")
+            return None
         if bad:
             ctx.check("unsupported-refused", True)
             ctx.mon.note(f"refused-at:{stage}")
@@ -900,10 +996,16 @@ def _roundtrip(ctx, e, label):
             ref = reference_values(ev_sympy, e)
         except Unknown:
             ref = []
-        if any(r[0] == "ok" for r in ref):
-            ctx.check("supported-not-refused", False, f"{label}: {srepr_short(e)} refused at {stage}: {ex!r}")
-        else:
+        if not any(r[0] == "ok" for r in ref):
             ctx.mon.note("refused:undefined-everywhere")
+            return None
+        later = _evaluated_form_unsupported(e)
+        if later:
+            # every node of the given (unevaluated) tree is supported, but evaluating it yields an
+            # unsupported one: judged like sympy's own rewriting, on the tree it produces
+            ctx.mon.note("refused:evaluation-introduces-unsupported-node")
+            return None
+        ctx.check("supported-not-refused", False, f"{label}: {srepr_short(e)} refused at {stage}: {ex!r}")
         return None
     if not bad:
         ctx.check("supported-not-refused", True)
@@ -959,7 +1061,8 @@ def run_case(ctx):
         return
 
     if cls in ("random", "unevaluated", "numeric"):
-        depth = rng.randint(2, maxdepth)
+        # unevaluated trees mostly stress sympy's own re-evaluation once they get deep: capped at 5
+        depth = rng.randint(2, min(maxdepth, 5) if cls == "unevaluated" else maxdepth)
         e = rand_tree(rng, depth, evaluate=(cls != "unevaluated") or rng.random() < 0.1, symbols=(cls != "numeric"))
         feats = _features(e) if isinstance(e, S.Basic) else set()
         nontrivial = size_of(e) >= 6 and bool(feats) and (cls == "numeric" or bool(e.free_symbols))
@@ -1014,6 +1117,9 @@ def run_case(ctx):
             back = translate_tuple(ts, SYMPY_DIALECT) if ok else None
         except Exception as ex:
             defined = False
+            if _sympy_internal(ex):
+                ctx.mon.note(f"tuple:sympy-internal-error:{type(ex).__name__}")
+                return
             if not bad:
                 for e in es:
                     try:
